@@ -82,6 +82,14 @@ CHECKS["C17"] = dict(
          "labels are used to recompute the FSC and compared with the real function.",
     design="5 C17", technique="Lean 4 proof (Cauchy-Schwarz per shell) + exact shell-label model correspondence")
 
+CHECKS["C15"] = dict(
+    text="Theorems for every b >= 1 and axis length: block structure of bin_image (s//b outputs, "
+         "remainder < b dropped), scale * b, translated molecule read at the new scale maps back to the "
+         "same original pixel coordinate, voxel k of a binned box = b-block K = b*k+j of the b-times larger "
+         "original box; single and batch loaders use identical arithmetic. Block-sum model compared voxel "
+         "by voxel with bin_image (numpy and dask).",
+    design="5 C15", technique="Lean 4 proof over generated binning kernels + block-sum correspondence")
+
 NOT_YET = {}
 
 
